@@ -63,9 +63,8 @@ def make_overlay(root, edits):
 
 
 def _keys(pid, root, overlay):
-    from .main import run_property
-    rep = run_property(pid, 'quick', root, overlay=overlay, quiet=True)
-    rep.verify_minimums()
+    from .main import run_consensus
+    rep = run_consensus(pid, 'quick', root, overlay=overlay, quiet=True)
     return {f.key: f for f in rep.findings}
 
 
